@@ -39,7 +39,7 @@ from fractions import Fraction
 from pathlib import Path
 
 sys.path.insert(0, str(Path(__file__).resolve().parent))
-from cexpr import translate, Untranslatable, analyse_next_cut, analyse_key  # noqa: E402
+from cexpr import translate, Untranslatable, analyse_next_cut, analyse_key, analyse_ctor  # noqa: E402
 
 REPO = Path(os.environ.get('REPLICAT_REPO', '/repo'))
 OUT = Path(__file__).resolve().parent.parent / 'lean' / 'ReplicatModel' / 'Generated.lean'
@@ -127,6 +127,17 @@ def chunker_section():
     except (Untranslatable, RecursionError, IndexError, KeyError, TypeError, ValueError, AttributeError) as e:
         km = None
         notes['chunker_key'] = f'key()/constructor: structure not recognised: {e}'
+    red = None
+    try:
+        if km:
+            red = analyse_ctor(src, km['params'], km['k1'])
+    except (Untranslatable, RecursionError, IndexError, KeyError, TypeError, ValueError, AttributeError) as e:
+        if str(e).startswith('parse:'):
+            notes['chunker_ctor'] = f'constructor not parsed ({e}); falling back to the textual form'
+            red = int(cm['red'], 0) if cm else None
+        else:
+            notes['chunker_ctor'] = f'constructor: {e}'
+    cm = {'red': str(red)} if red is not None else None
     if not cm:
         notes['chunker_key'] = 'constructor: reduction constant not recognised'
     emit(f'def chunkerRecognised : Bool := {"true" if ok else "false"}')
